@@ -34,6 +34,7 @@ func runC05(w *core.World, r *core.Report) {
 	r.Rule("R4", "every moving handler calls Vm.Reset on every success path after the move")
 	r.Rule("R5", "RELOAD: invoker -> Update -> Page.Map on the same symbol")
 	r.Rule("R6", "capacity oracle result 0 means failure only under len(value) > 0")
+	r.Rule("R10", "a result larger than its limit is never shown: no error built by Add/Update carries the value (error texts are rendered in front of the catch node)")
 	r.Rule("R9", "a cache level begins empty: the level list grows only by appending a freshly made map, every other store is a non-growing re-slice")
 	r.Rule("R8", "Page.Map stores the cache's current value for the symbol on every success path (RELOAD's re-map refreshes the page)")
 	r.Rule("R7", "a result larger than its limit is never stored: C09 R1/R2 (no truncated length in a comparison; limit and capacity tests on every success path of Add/Update)")
@@ -321,6 +322,7 @@ func runC05(w *core.World, r *core.Report) {
 
 	// ---- R7 -----------------------------------------------------------------------------------
 	checkCacheLimits(w, r, capacityOracles(w), add, upd, "R7", "R7")
+	checkCacheErrorsOmitValue(w, r, "R10", add, upd)
 }
 
 func forwardVals(v ssa.Value) []ssa.Value {
